@@ -24,10 +24,16 @@ SCALARS = [
 ]
 
 
-def elem(lv, dtype):
+def elem(lv, dtype, pos=0, narrow=False):
+    """literal for an element; narrow: every other literal is written in a narrower type than declared
+    (an INT in a float array, a FLOAT / INT in a complex array)"""
     if dtype == "int":
         return lv.int()
     if dtype == "float":
+        return lv.int() if (narrow and pos % 2 == 0) else lv.float()
+    if narrow and pos % 3 == 0:
+        return lv.int()
+    if narrow and pos % 3 == 1:
         return lv.float()
     return lv.complex("a+bj")
 
@@ -63,7 +69,8 @@ def gen(spec, lv):
         L.append("Gate(v, key=v) | 0")
         return {"text": "\n".join(L) + "\n", "pre": pre}
     # arrays
-    _, dtype, rowlens, shape_mode, params, use = spec
+    _, dtype, rowlens, shape_mode, params, use = spec[:6]
+    narrow = len(spec) > 6 and spec[6] == "narrow"
     r = len(rowlens)
     hdr = "%s array A" % dtype
     if shape_mode == "sym":
@@ -80,7 +87,7 @@ def gen(spec, lv):
             if pos in params:
                 row.append("{par%s}" % "abc"[params.index(pos)])
             else:
-                row.append(elem(lv, dtype))
+                row.append(elem(lv, dtype, pos, narrow))
             pos += 1
         L.append("    " + ", ".join(row))
     if use == "idx":
@@ -117,7 +124,12 @@ def gen_specs(tier, seed):
                     specs.append(("array", dtype, rl, "none", tuple(params), "none"))
                     if len(set(rl)) == 1 and tier == "thorough":
                         specs.append(("array", dtype, rl, "sym", tuple(params), "none"))
-    return specs
+    # literals written narrower than the declared element type (with and without parameters among the elements)
+    extra = []
+    for sp in specs:
+        if sp[0] == "array" and sp[1] in ("float", "complex") and len(set(sp[2])) == 1 and sp[3] in ("none", "exact") and sum(sp[2]) >= 2:
+            extra.append(sp + ("narrow",))
+    return specs + extra
 
 
 def main():
